@@ -90,7 +90,8 @@ Proof.
     rewrite Ex1, Ex2 in Ht. destruct (N.eqb_spec W 0); [lia|]. injection Ht as <-. split; [reflexivity|exact HW1]. }
   destruct Et as [Et Ht1].
   destruct (encoder_new_inv0 p [] wo rate bps ch t e0 Hwf ltac:(lia) Ht1 He0) as (I0 & S0 & Fi0 & _).
-  destruct (encoder_new_fresh p rate bps wo ch t e0 He0) as (_ & F0 & _ & _ & _ & _ & _ & _ & _ & St).
+  destruct (encoder_new_fresh p rate bps wo ch t e0 He0) as (_ & F0 & _ & _ & _ & _ & _ & Mx & _ & St).
+  assert (Hmx : o_block_size wo <= si_max_bs (e_si e0)) by (rewrite Mx; lia).
   assert (G0 : good e0 e0 0).
   { unfold good. split; [exact I0|]. split; [exact S0|]. split; [unfold frames_nonempty; rewrite Fi0; constructor|].
     split; [apply static_eq_refl|]. rewrite F0. unfold true_samples, true_bytes. rewrite Fi0. cbn. repeat split; lia. }
@@ -176,7 +177,7 @@ Proof.
     rewrite N.div_add_l by lia. rewrite (N.div_small (N.of_nat _) ch) by (unfold c in Ldl; lia). lia. }
   assert (Hcount : N.of_nat (length cs) + 1 <= 2 ^ 36).
   { assert (length cs <= length samples)%nat by (rewrite Lsamples; nia). lia. }
-  destruct (chunks_run_ok o L md5 md5_length p rate bps ch Hrate Hb1 Hb32 Hc1 Hc8 e0 bs ltac:(lia) dcs e0 0 G0 ltac:(rewrite Ldcs; lia) Hcs)
+  destruct (chunks_run_ok o L md5 md5_length p rate bps ch Hrate Hb1 Hb32 Hc1 Hc8 e0 bs ltac:(lia) Hmx dcs e0 0 G0 ltac:(rewrite Ldcs; lia) Hcs)
     as (e1 & H1 & G1 & T1).
   { rewrite St, Et, T0, Fcs_frames. destruct total; cbv iota; [lia|exact I]. }
   fold nb in H1. rewrite H1. cbn [bind].
@@ -198,7 +199,7 @@ Proof.
         apply Hfit_sub. exists (concat dcs), (decode_bytes en n left). rewrite Esamples. reflexivity. }
       assert (Ewf : N.of_nat (length (decode_bytes en n whole)) / ch = N.of_nat q).
       { rewrite Ldw. unfold c. rewrite Nat2N.inj_mul, N2Nat.id, N.mul_comm, N.div_mul by lia. reflexivity. }
-      destruct (chunk_step_ok o L md5 md5_length p rate bps ch Hrate Hb1 Hb32 Hc1 Hc8 e0 e1 _ bs _ G1 ltac:(rewrite Ldcs; lia) ltac:(lia) Hwc)
+      destruct (chunk_step_ok o L md5 md5_length p rate bps ch Hrate Hb1 Hb32 Hc1 Hc8 e0 e1 _ bs _ G1 ltac:(rewrite Ldcs; lia) ltac:(lia) Hmx Hwc)
         as (e2 & H2 & G2 & T2).
       { rewrite St, Et, T1, T0, Fcs_frames, Ewf. destruct total; cbv iota; [lia|exact I]. }
       exists e2. split; [exact H2|]. split; [eauto|]. rewrite T2, T1, T0, Fcs_frames, Ewf. lia.
